@@ -589,10 +589,46 @@ def sonrq_credentials(p):
         p.must_reject("sonrq-credentials-rule-not-in-force", "kwargs", lambda bad=bad: p.cls(*args, **dict(base, **bad)), label)
 
 
+def acctinfo_members(p):
+    """ACCTINFO holds at most ONE account-information aggregate of each kind (its members are repeated children by declaration,
+    the single occurrence is ACCTINFO's own rule): a second one of a kind is refused wherever it stands - next to the first or not."""
+    import xml.etree.ElementTree as ET
+    from ofxtools.models.base import Aggregate
+
+    O = instances.Opts
+    kinds = [k for k, t in ref_decl.decl(p.cls).items() if ref_decl.kind_of(t) == "listagg"]
+    if len(kinds) < 3:
+        return
+    try:
+        _, kwargs = p.base()
+        m = {k: [instances.child_value(p.cls, k, p.rng, O()) for _ in range(2)] for k in kinds[:3]}
+    except Exception:
+        p.ctx.count("base_failed")
+        return
+    a, b, c = kinds[:3]
+    p.must_accept("acctinfo-one-of-each", "kwargs", lambda: p.cls(m[a][0], m[b][0], m[c][0], **kwargs), "a,b,c")
+    for label, seq in (("a,a", [m[a][0], m[a][1]]), ("a,b,a", [m[a][0], m[b][0], m[a][1]]), ("b,c,b", [m[b][0], m[c][0], m[b][1]]),
+                       ("a,b,c,a", [m[a][0], m[b][0], m[c][0], m[a][1]]), ("a,b,a,b", [m[a][0], m[b][0], m[a][1], m[b][1]])):
+        p.must_reject("acctinfo-second-of-a-kind-accepted", "kwargs", lambda seq=seq: p.cls(*seq, **kwargs), label)
+        try:
+            elem = p.cls(m[a][0], **kwargs).to_etree()
+            for x in list(elem):
+                if x.tag.lower() in kinds:
+                    elem.remove(x)
+            for x in seq:
+                elem.append(x.to_etree())
+        except Exception:
+            p.ctx.count("base_failed")
+            continue
+        p.must_reject("acctinfo-second-of-a-kind-accepted", "etree", lambda elem=elem: p.from_etree(elem), label)
+
+
 def run_class(ctx, name, cls, seedstr):
     p = Probe(ctx, name, cls, seedstr)
     if name == "SONRQ":
         sonrq_credentials(p)
+    if name == "ACCTINFO":
+        acctinfo_members(p)
     p.per_child()
     p.groups()
     p.order_and_duplicates()
